@@ -100,7 +100,7 @@
 
     // ---- variable-length impls at fixed small lengths (symbolic contents): bounded in length
     #[kani::proof]
-    #[kani::unwind(6)]
+    #[kani::unwind(12)]
     #[kani::stub(crate::error::Error::with_context, vk_with_context_stub)]
     #[kani::stub(crate::error::Error::with_source, vk_with_source_stub)]
     #[kani::stub(std::backtrace::Backtrace::capture, vk_bt_stub)]
